@@ -78,7 +78,7 @@ class Gen:
 
     def populate(self, d, depth, budget):
         r = self.rng
-        used = set()
+        used = set(os.listdir(d))          # never re-open an existing entry (opening an existing fifo would block)
         n_here = r.randint(0, min(budget, r.choice([2, 4, 8, 8, 16, 40])))
         for _ in range(n_here):
             if self.count >= self.size:
@@ -93,7 +93,7 @@ class Gen:
                     self.dirs.append(p)
                     self.populate(p, depth + 1, budget // 2 + 1)
                 elif k < 0.62:
-                    with open(p, "wb") as f:
+                    with os.fdopen(os.open(p, os.O_WRONLY | os.O_CREAT | os.O_EXCL, 0o644), "wb") as f:
                         f.write(b"%d:" % self.count + bytes(r.getrandbits(8) for _ in range(r.choice([0, 1, 10, 100, 5000]))))
                     self.files.append(p)
                 elif k < 0.72:
@@ -116,7 +116,7 @@ class Gen:
                     os.link(src, p, follow_symlinks=False)
                     self.files.append(p)
                 else:
-                    with open(p, "wb") as f:
+                    with os.fdopen(os.open(p, os.O_WRONLY | os.O_CREAT | os.O_EXCL, 0o644), "wb") as f:
                         f.write(b"%d" % self.count)
                     self.files.append(p)
             except OSError:
@@ -382,7 +382,7 @@ def gen_glob_case(ctx, tree, idx, multi=False, tool=False):
             opts += [b"-path", b"\"" + pattern + b"\""]
             gflags |= F_FULL_PATH
     subdir = None
-    subs = [p[len(tree.root) + 1:] for p in tree.dirs[1:] if b" " not in p and b"\"" not in p and b"\\" not in p]
+    subs = [p[len(tree.root) + 1:] for p in tree.dirs[1:] if b" " not in p and b"\"" not in p and b"\\" not in p and os.path.isdir(p)]
     if subs and r.random() < 0.4:
         subdir = r.choice(subs)
     line = b"glob \"/%s\" %s %s %s %s" % (target, mode_s, uid_s, gid_s, b" ".join(opts))
@@ -708,7 +708,7 @@ def gen_tool_case(ctx, tree, idx, multi):
         return Case("packdir", tree, {"uid": 0, "gid": 0, "mtime": mt, "mode": 0o755}, flags, defs), cmd
     c = gen_glob_case(ctx, tree, 100000 + idx, multi, tool=True)
     d = c.d
-    cmd = ["-q", "-f", "-b", str(BLK), "-j", str(r.choice([1, 4])), "-d", "uid=%d,gid=%d,mode=%o,mtime=%d" % (d["uid"], d["gid"], d["mode"], d["mtime"]),
+    cmd = ["-q", "-f", "-b", str(BLK), "-j", str(r.choice([1, 4])), "-d", "uid=%d,gid=%d,mode=0%o,mtime=%d" % (d["uid"], d["gid"], d["mode"], d["mtime"]),
            "-D", tree.root.decode("utf-8", "surrogateescape"), "-F", c.packfile_path.decode()]
     c.flags = DEFAULT_FLAGS
     return c, cmd
@@ -744,7 +744,7 @@ def run(ctx):
     distinct = set()
     samples = []
     n_orders = 8 if ctx.quick() else 12
-    n_trees = 24 if ctx.quick() else 160
+    n_trees = 60 if ctx.quick() else 400
 
     def one(case, facts, tag):
         orders = orders_for(ctx, n_orders)
